@@ -60,7 +60,7 @@ NoServe == UNCHANGED <<opts, todo, cap, cache, last, nreq>>
 
 \* ---- registration statements ------------------------------------------------------------------------
 REnter == \E p \in GroupPrefixes, n \in 0..1, s1 \in MwScripts :
-            /\ Depth < MaxDepth /\ Enter(p, n)
+            /\ Depth < MaxDepth /\ Enter(p, n, FALSE)
             /\ Scripted(NewScripts(Len(prog) + 1, n, <<s1>>))
             /\ hist' = Append(hist, [op |-> "enter", prefix |-> p, mw |-> n, scripts |-> SubSeq(<<s1>>, 1, n)])
             /\ UNCHANGED ivars
